@@ -1,5 +1,5 @@
-"""EqRel unit (C10): Verus contracts on ascent_byods_rels::union_find::EqRel, extracted from the source files on every run
-(union_find.rs and utils.rs use no crate-local macros in these functions)."""
+"""BinaryRel unit (C11): Verus contracts on ascent_byods_rels::binary_rel::BinaryRel (the pair store under the trrel provider),
+extracted from the source file on every run."""
 import os
 import time
 
@@ -10,11 +10,11 @@ from .splice import Splicer
 from .locate import Locator
 
 CANARY = '\nverus! {\nproof fn __vacuity_canary()\n    ensures false\n{\n}\n}\n'
-FILES = ['byods/ascent-byods-rels/src/union_find.rs', 'byods/ascent-byods-rels/src/utils.rs']
+FILES = ['byods/ascent-byods-rels/src/binary_rel.rs']
 
 
 def build_unit():
-    from contracts import eqrel as tmpl
+    from contracts import binrel as tmpl
     texts = []
     for rel in FILES:
         p = os.path.join(REPO, rel)
@@ -23,7 +23,7 @@ def build_unit():
         texts.append(open(p).read())
     sp = Splicer({'byods_src': Source('\n'.join(texts), 'byods_src')}, degrade=True)
     out = sp.render(tmpl.template())
-    path = os.path.join(WORK, 'units', 'eqrel_unit.rs')
+    path = os.path.join(WORK, 'units', 'binrel_unit.rs')
     os.makedirs(os.path.dirname(path), exist_ok=True)
     with open(path, 'w') as f:
         f.write(out + CANARY)
